@@ -7,12 +7,15 @@ import (
 	"errors"
 	"fmt"
 	"io"
+	"strings"
+	"time"
 
 	"filippo.io/age"
 	"filippo.io/age/xverif/internal/coregen"
 	"filippo.io/age/xverif/internal/vk"
 	"filippo.io/age/xverif/internal/world"
 	"filippo.io/age/xverif/props/ageflow"
+	"filippo.io/age/xverif/props/c16"
 )
 
 // Run is the C11 check.
@@ -77,6 +80,7 @@ func Run(tier string) {
 		}
 		run.Distinct("scrypt+" + name)
 	}
+	pluginFailures(run, w)
 	randFaults(run, w)
 	if run.Thorough() {
 		run.Exhaustive()
@@ -157,6 +161,47 @@ func randFaults(run *vk.Run, w *world.World) {
 				if derr != nil || r == nil {
 					run.Violation("C11:wrap-failure-not-refused:"+sig, fmt.Sprintf("recipients [%s], CSPRNG failing at draw %d (a recipient could not wrap the file key): Encrypt did not refuse and wrote %d bytes that do not decrypt (%v)", name, k, cw.Bytes, derr), nil)
 				}
+			}
+			run.Distinct(sig)
+		}
+	}
+}
+
+// pluginFailures: a plugin recipient whose plugin reports an error - alone, or after it has already sent a stanza - has
+// failed to wrap the file key: Encrypt refuses the list, wherever the plugin recipient stands, with nothing written.
+func pluginFailures(run *vk.Run, w *world.World) {
+	dir := c16.Setup()
+	for _, script := range [][]string{{"error"}, {"rs_ok", "error"}, {"rs_ok2", "error"}, {"error", "rs_ok", "done"}} {
+		for pos := 0; pos < 3; pos++ {
+			pr, err := c16.ScriptedRecipient(dir, script)
+			if err != nil {
+				vk.Infra("scripted plugin recipient: %v", err)
+			}
+			var rs []age.Recipient
+			switch pos {
+			case 0:
+				rs = []age.Recipient{pr}
+			case 1:
+				rs = []age.Recipient{w.Recipient("x1"), pr}
+			default:
+				rs = []age.Recipient{pr, w.Recipient("x1")}
+			}
+			cw := &coregen.CountingWriter{}
+			done := make(chan error, 1)
+			go func() { _, err := age.Encrypt(cw, rs...); done <- err }()
+			var eerr error
+			select {
+			case eerr = <-done:
+			case <-time.After(30 * time.Second):
+				vk.Infra("Encrypt to a scripted plugin recipient did not return")
+			}
+			run.Eval(1)
+			sig := fmt.Sprintf("plugin:%s/pos=%d", strings.Join(script, "."), pos)
+			rp := map[string]interface{}{"check": "C11.plugin", "script": script, "pos": pos}
+			if eerr == nil {
+				run.Violation("C11:failed-wrap-accepted:"+sig, fmt.Sprintf("the plugin of a recipient reported an error (script %v) and Encrypt went ahead", script), rp)
+			} else if cw.Bytes != 0 || cw.Calls != 0 {
+				run.Violation("C11:bytes-written-on-refusal:"+sig, fmt.Sprintf("refusal (%v) after %d bytes reached the destination", eerr, cw.Bytes), rp)
 			}
 			run.Distinct(sig)
 		}
